@@ -884,3 +884,106 @@ DROP_FP = Contract(
                                'result[1] == mag(old(m)) * X.pow2f(old(e) - 4 * result[3]))')],
     note='integral mantissas (a float mantissa goes through the multiply-until-integral loop: outside the modelled subset)')
 CONTRACTS = CONTRACTS + [DROP_FP]
+
+
+# ---- ... with open type members (ANY DEFINED BY): wrapped into the field's type unless they are captured octets of it (C18) ------
+R_OPEN = _z3.Function('member.hasOpenType', _I, _BoolSort())            # by component token
+R_COLL = _z3.Function('member.isCollectionOfOpenType', _I, _BoolSort())
+R_CHUNK_COLL = _z3.Function('collection.encoding.with.wrapType', _I, _S)
+R_WRAP = _z3.Function('wrapped.in.field.type', _S, _S)
+
+
+def r_member(vals, i):
+    ident = vals[i]
+    plain = R_CHUNK(ident)
+    return _z3.If(r_present(vals, i),
+                  _z3.If(R_OPEN(ident), _z3.If(R_COLL(ident), R_CHUNK_COLL(ident),
+                                               _z3.If(E_SAME(ident), plain, R_WRAP(plain))), plain),
+                  _z3.Empty(_S))
+
+
+R_MEMBERS_O = _z3.RecFunction('encodings_of_present_members_with_open_types', _S, _I, _S)
+_z3.RecAddDefinition(R_MEMBERS_O, [_rv, _ru], _z3.If(_ru <= 0, _z3.Empty(_S), _z3.Concat(R_MEMBERS_O(_rv, _ru - 1), r_member(_rv, _ru - 1))))
+COLL_ELEMENT_TYPE = Obj('Any', {}, name='wrapType.componentType')
+
+
+def _record_open(ex, env):
+    vals = env['components']
+
+    def getitem(ex2, self, idx):
+        i = toint(idx)
+        ident = vals.z[i]
+        if ex2.choose(R_OPEN(ident), 'open-type-member'):
+            coll = ex2.choose(R_COLL(ident), 'collection-of-open-type')
+            declared = Obj('Any', {'typeId': 'setof-type-id' if coll else 'any-type-id', 'componentType': COLL_ELEMENT_TYPE,
+                                   '__id__': ident}, name='wrapType')
+            ot = Obj('OpenType', {}, name='openType')
+        else:
+            declared, ot = Obj('Default', {}, name='default'), None
+        return Obj('NamedType', {'isOptional': R_OPT(i), 'isDefaulted': R_DEF(i), 'openType': ot, 'asn1Object': declared},
+                   name='namedType')
+    named = Obj('NamedTypes', {'__truthy__': True}, {'__getitem__': getitem}, name='namedTypes')
+    return Obj('Sequence', {'isInconsistent': False, 'componentType': named},
+               {'values': lambda ex2, self: _Components([vals.z], names=('__id__',))}, name='value')
+
+
+def _kw(options, name):
+    """the value a call passes for option `name`: explicit keyword first, then the **mapping -> (present, value)"""
+    if name in options:
+        return True, options[name]
+    extra = options.get('**')
+    if extra is not None and name in extra.entries:
+        return extra.entries[name]
+    return False, None
+
+
+def _encode_member_open(ex, component, asn1Spec=None, **options):
+    if isinstance(component, SeqV):
+        # the second call: the inner value's encoding wrapped into the field's (ANY) type
+        if not (isinstance(asn1Spec, Obj) and asn1Spec.name == 'wrapType'):
+            raise Unsupported('octets encoded under something else than the field type')
+        z = R_WRAP(component.z)
+        ex.assume(inr(z))
+        return SeqV(z, 'bytes')
+    ident = toint(component.fields['__id__'])
+    has_wrap, wrap = _kw(options, 'wrapType')
+    if has_wrap is True and wrap is not None:
+        ex.vc('%s#collection-elements-wrapped-into-the-element-type' % ex.c.id,
+              _z3.BoolVal(isinstance(wrap, Obj) and wrap.uid == COLL_ELEMENT_TYPE.uid), kind='external')
+        z = R_CHUNK_COLL(ident)
+    else:
+        # C18 / c8a2e76: the inner value of a (non-collection) open type member is no OPTIONAL member itself: it is encoded
+        # also when it is empty, i.e. the canonical encoders' ifNotEmpty does not travel on into it
+        present, val = _kw(options, 'ifNotEmpty')
+        off = _z3.BoolVal(True) if present is False else (_z3.Not(present) if not isinstance(present, bool) else None)
+        if present is True or not isinstance(present, bool):
+            v_ = val if not isinstance(val, bool) else _z3.BoolVal(val)
+            not_set = _z3.Not(v_) if not isinstance(val, bool) or val else _z3.BoolVal(True)
+            off = not_set if present is True else _z3.Or(_z3.Not(present), not_set)
+        ex.vc('%s#inner-value-of-an-open-type-always-encoded' % ex.c.id,
+              _z3.Implies(_z3.And(R_OPEN(ident), _z3.Not(R_COLL(ident))), off), kind='external')
+        z = R_CHUNK(ident)
+    ex.assume(inr(z))
+    return SeqV(z, 'bytes')
+
+
+SEQ_ENC_OPEN = Contract(
+    id='ber.encoder::SequenceEncoder.encodeValue[value-object,any-size,open-types]', file=F, qual='SequenceEncoder.encodeValue',
+    properties=['C18', 'C01', 'C03'],
+    params=dict(self=PObj('SequenceEncoder', omitEmptyOptionals=PBool()), components=PIntTuple(), value=PDerived(_record_open),
+                asn1Spec=PConst(None), encodeFun=PConst(FnV(_encode_member_open, 'encodeFun')), options=POptions()),
+    globals={'_isValueOf': FnV(lambda ex, t, component: E_SAME(toint(component.fields['__id__'])), '_isValueOf'),
+             'univ': {'SetOf': {'typeId': 'setof-type-id'}, 'SequenceOf': {'typeId': 'seqof-type-id'}, '__name__': 'univ'},
+             'members': FnV(lambda ex, vals, upto: SeqV(R_MEMBERS_O(vals.z if isinstance(vals, SeqV) else vals.cols[0], toint(upto)), 'bytes'),
+                            'members'),
+             'unfold': FnV(lambda ex, vals, i: (lambda z, k: _z3.Implies(k >= 0, R_MEMBERS_O(z, k + 1) == _z3.Concat(
+                 R_MEMBERS_O(z, k), r_member(z, k))))(vals.z if isinstance(vals, SeqV) else vals.cols[0], toint(i)), 'unfold')},
+    loops={0: Loop(index='i', invariant=['substrate == members(loop_seq, i)', 'isinstance(substrate, bytes)', 'X.inr(substrate)'],
+                   hints=['unfold(loop_seq, i)'])},
+    ensures=[
+        # an open type member holds its inner value wrapped into the field's type -- unless it is a value of that type itself
+        # (captured octets); a SET OF / SEQUENCE OF of open type values passes the element type on as wrapType
+        ('open-type-members-wrapped-unless-captured', 'result[0] == members(components, len(components))'),
+        ('constructed', 'result[1] is True and result[2] is True')],
+    note='_isValueOf (contract) and the uses of encodeFun are call reductions / assumed models; per-member flags are symbolic')
+CONTRACTS = CONTRACTS + [SEQ_ENC_OPEN]
